@@ -127,6 +127,10 @@ class Arm(Robot):
                 base_to_link = fsr.globalToLocal(self._base_pos_global, self._joint_homes_global[i])
                 new_global = fsr.localToGlobal(base_pos_global, base_to_link)
                 self._joint_homes_global[i] = new_global
+            if self._link_homes_global is not None:
+                old_base_inv = self._base_pos_global.inv()
+                self._link_homes_global = [base_pos_global @ (old_base_inv @ link_home)
+                        for link_home in self._link_homes_global]
         else:
             self._joint_homes_global = [tm()]
             for i in range(joint_poses_home.shape[1]):
